@@ -124,6 +124,8 @@ def check_session(ctx, case):
     if res['outcome'] in ('stalled', 'runaway'):
         ctx.fail('no-termination', 'WebSession', case, 'session %s after %d requests' % (res['outcome'], nreq))
     follow, auth = oracle_visit(ctx, case, replies, nreq, m, 'WebSession')
+    if m_hops is not None and rc.parse_session_reply.counts != (follow, auth):
+        ctx.disagree('session', case, {'followUps,authRetries': rc.parse_session_reply.counts}, {'followUps,authRetries': (follow, auth)})
     ctx.tag('session:auth-retries=%d' % min(auth, 4))
     return res
 
